@@ -10,7 +10,7 @@ byc = [r for r in rows if r.get('n_contract_refutations', 0) > 0]
 so = [r['seed'] for r in rows if r.get('n_contract_refutations', 0) == 0]
 co = [r['seed'] for r in rows if r.get('n_contract_refutations', 0) > 0 and r.get('standin_failures', 0) == 0]
 words = {16: 'Sixteen', 20: 'Twenty', 21: 'Twenty-one'}
-head = """### 12.8 Seed matrix (from `seeded/MATRIX.json`; quick tier, VERIF_SEED=0; refreshed after 12.24)
+head = """### 12.8 Seed matrix (from `seeded/MATRIX.json`; quick tier, VERIF_SEED=0; refreshed after 12.26)
 
 "contracts" = number of refuted contract obligations that are not recorded findings; "stand-in" = failures of the
 bounded stand-in (recorded findings included). Every live seed makes its property's check exit 1 (%d of %d); %d are refuted by a contract obligation
